@@ -18,6 +18,21 @@ CLAIMED = {
          "L5 P2SH/witness dispatch x scriptSig shapes x witness shapes x all legal subsets of 7 flags; L6 CLTV/CSV operand x locktime x sequence x version product. Verdict (and final stack for single scripts) must equal the reference.",
          "Trusted: vf/ref/script.py + vf/ref/sighash.py (independent port of Core's interpreter; validated on every run against all 1405 Core script/tx vectors shipped in the repo). "
          "Scripts outside the alphabets (longer control-flow programs, multi-field DER mutations, taproot) are not covered. NOP2/NOP3 with flag unset + DISCOURAGE_UPGRADABLE_NOPS is unconstrained (Core versions differ)."),
+ "C04": ("bounded-exhaustive comparison of every sighash entry point with an independent legacy/BIP143/fork-id/single-SHA reference",
+         "All transactions within <=2 (3) deviations of a default over 10 boundary-valued axes x every input index x all 256 hash-type bytes x 6 coin classes (BTC, LTC, BCH, BTG, GRS, generic) "
+         "through _signature_hash and _signature_for_hash_type_segwit, plus the closures the VM calls driven with a stub VM (signature push shapes x begin_code_hash at every opcode boundary). "
+         "Digest equality on every case; fork-id coins must refuse the 128 hash types without 0x40; transaction bytes/ids/unspents unchanged afterwards.",
+         "Trusted: vf/ref/sighash.py (BIP143 worked example + every signature of the Core vectors verifying through it). Script codes with truncated pushes and 0/1-byte signature blobs are outside the space."),
+ "C05": ("explicit exploration of signing-pass histories on the real transaction object, invariants judged by the reference interpreter",
+         "States are transactions under signing; events are signing passes (key subset x supply mechanism {lookup, WIF, BIP32 keychain} x hash type x input set). Explored: every puzzle kind x 6 hash types x 7 coins x 3 mechanisms; "
+         "every ordered pair of kinds; every order of single-key passes for m-of-n (n<=3, 4 thorough) in 5 multisig forms with a wrong-key / repeated / other-input pass at every position; (m,n) up to 20. "
+         "After every pass: only asked, not-yet-valid inputs changed; input valid under the standard flags iff m listed keys have signed (reference verdict and pycoin verdict); signatures strict-DER, low-S, requested hash type; re-signing is the identity.",
+         "Trusted: vf/ref/script.py as validity judge; key derivation through pycoin BIP32 on the harness side. Non-standard puzzles are outside the property."),
+ "C06": ("exhaustive single-field mutation of signed transactions + mutate/undo/validate histories on one object vs fresh objects",
+         "For signed transactions of every puzzle kind x 6 hash types (3 inputs, 4 and 2 outputs) every mutation of a ~90-entry alphabet (fields, insert/delete/swap of inputs and outputs, unlocking data swap, unspents edits/removal) is applied to the live object; "
+         "each input's verdict must equal the reference interpreter's verdict on the mutated transaction, which is itself cross-checked against a field-level commitment view on every case. "
+         "Histories of <=2 (3) mutations with undo and repeated validation on one object must agree with a fresh object parsed from the current bytes after every step.",
+         "Trusted: vf/ref/script.py + sighash.py; commitment view in c06.py (a disagreement between the two is MODEL-INVALID, not a violation)."),
 }
 NOT_YET = "check not built yet (work in progress; see DESIGN.md section 5 for the planned exploration)"
 
